@@ -80,6 +80,33 @@ def model_replay(prop, tier, ev, rep, module, cfg, *, mode="fraction", label=Non
     return res
 
 
+def judge_events(ev, rep, val, timeout=3000):
+    """run Binding B on the events collected in val and report failing clauses"""
+    if not val.events:
+        return
+    verdicts, unknown, stats = val.run(timeout=timeout)
+    b = ev.extra.setdefault("binding_B", {"events_judged_by_TLC": 0, "unknown_overflow": 0, "tlc_states": 0,
+                                          "tlc_wall_s": 0.0, "failing_events": 0})
+    b["events_judged_by_TLC"] += len(verdicts)
+    b["unknown_overflow"] += len(unknown)
+    b["tlc_states"] += stats["states"]
+    b["tlc_wall_s"] = round(b["tlc_wall_s"] + stats["wall_s"], 2)
+    ev.states += stats["states"]
+    ev.transitions += stats["generated"]
+    ev.validated += len(verdicts)
+    for e, tag in val.events:
+        fails = verdicts.get(e["id"]) or []
+        unk = [f for f in fails if f.startswith("?")]
+        fails = [f for f in fails if not f.startswith("?")]
+        if unk:
+            b["unknown_clauses"] = b.get("unknown_clauses", 0) + len(unk)
+        if fails:
+            b["failing_events"] += 1
+            rep.violation(event_key(e, fails), {"event": e, "clauses": fails, "transition": tag})
+        else:
+            ev.sample({"event": e["act"], "verdict": "accepted"}, limit=8)
+
+
 def finish(ev, rep):
     code = rep.finish()
     ev.write()
@@ -127,7 +154,192 @@ c17 = simple("C17", [("MC_KnotVector.tla", "MC_KvUnion_TIER.cfg")])
 c19 = simple("C19", [("MC_Misc.tla", "MC_Misc_project_TIER.cfg")])
 c20 = simple("C20", [("MC_Misc.tla", "MC_Misc_intersect_TIER.cfg")])
 
-CHECKS = {"C01": c01, "C02": c02, "C03": c03, "C04": c04, "C05": c05, "C06": c06, "C07": c07, "C08": c08,
+def c10(tier):
+    """quadrature: memo machine (history independence), exactness of the rules, spline integrals"""
+    import math
+    from fractions import Fraction
+    from .trace import Validator
+    ev = Evidence("C10", tier, core.seed())
+    rep = Reporter("C10", ev)
+    lib = core.import_lib()
+    # (a) memo machine: every call order up to the depth bound, on import-time tables
+    cfg = f"MC_Misc_memo_{tier}.cfg"
+    res = run_tlc("MC_Misc.tla", cfg)
+    need_ok(res, cfg)
+    if res.violation:
+        raise core.MachineryError(res.violation[:2000])
+    ev.add_tlc(res, cfg)
+    r = Replayer(lib, "fraction")
+    r.enable_memo_reset()
+    ev.extra["memo_tables_reachable"] = r._memo_init is not None
+
+    def on_fail(t, fails):
+        rep.violation(fail_key(t, fails) + ":" + t["act"]["fn"], {"transition": t, "failures": fails, "model": "MC_Misc.tla", "cfg": cfg})
+    ev.validated += replay_all(res.records, r, on_fail, sample=lambda t: ev.sample(short(t)))
+    # (b) exactness of the rules the code returns, judged by TLC (rational families) / numerically (irrational)
+    import compmec.nurbs.heavy as heavy
+    val = Validator()
+    nmax = 6 if tier == "quick" else 9
+    for n in range(1, nmax + 1):
+        for fam, nodes, wts, order in (("closed", heavy.NodeSample.closed_linspace, heavy.IntegratorArray.closed_newton_cotes, n),
+                                       ("open", heavy.NodeSample.open_linspace, heavy.IntegratorArray.open_newton_cotes, n)):
+            if fam == "closed" and n < 2:
+                continue
+            xs, ws = nodes(n), wts(n)
+            try:
+                val.add({"name": "Rule", "family": fam, "n": n, "xs": core.rats(xs), "ws": core.rats(ws), "order": order})
+            except TypeError as e:
+                rep.violation(f"Rule/{fam}:inexact", {"family": fam, "n": n, "error": str(e)})
+    judge_events(ev, rep, val)
+    numeric = 0
+    for n in range(1, (8 if tier == "quick" else 14) + 1):
+        for fam, nodes, wts, order in (("chebyshev", heavy.NodeSample.chebyshev, heavy.IntegratorArray.chebyshev, n),
+                                       ("gauss", heavy.NodeSample.gauss_legendre, heavy.IntegratorArray.gauss_legendre, 2 * n)):
+            xs = [float(x) for x in nodes(n)]
+            ws = [float(w) for w in wts(n)]
+            numeric += 1
+            bad = []
+            if len(xs) != n or len(ws) != n:
+                bad.append("length")
+            if any(not (0 <= x <= 1) for x in xs) or any(a >= b for a, b in zip(xs, xs[1:])):
+                bad.append("nodes_increasing_in_01")
+            if abs(sum(ws) - 1) > 1e-9:
+                bad.append("weights_sum_1")
+            for k in range(order):
+                if abs(math.fsum(w * x ** k for x, w in zip(xs, ws)) - 1 / (k + 1)) > 1e-9:
+                    bad.append(f"moment_{k}")
+                    break
+            if bad:
+                rep.violation(f"Rule/{fam}:{'+'.join(bad)}", {"family": fam, "n": n, "nodes": xs, "weights": ws, "failed": bad})
+    ev.extra["irrational_rules_checked_numerically"] = numeric
+    # (c) spline integrals, Integrate.function on monomials, polyline length
+    for module, c in (("MC_Curve.tla", f"MC_Curve_integ_{tier}.cfg"), ("MC_Misc.tla", "MC_Misc_length_quick.cfg")):
+        model_replay("C10", tier, ev, rep, module, c)
+    ev.assumptions += ["Chebyshev / Gauss-Legendre nodes are irrational: their moment equations are checked in floating point "
+                       "(1e-9) by the harness, not inside TLC; history independence of all families is checked on exact values"]
+    return finish(ev, rep)
+
+
+def c18(tier):
+    """generators, affine maps"""
+    import numpy as np
+    from fractions import Fraction
+    from .trace import Validator
+    ev = Evidence("C18", tier, core.seed())
+    rep = Reporter("C18", ev)
+    lib = core.import_lib()
+    for mode in ("fraction", "float", "int"):
+        model_replay("C18", tier, ev, rep, "MC_Misc.tla", f"MC_Misc_gen_{tier}.cfg", mode=mode, label=f"gen[{mode}]",
+                     filt=(lambda t: True) if mode != "int" else (lambda t: t["act"]["kind"] in ("bezier", "integer", "weight")))
+    # affine maps + reparametrisation invariance of the basis: KnotVector machine restricted to shift/scale/normalize,
+    # then the basis on the mapped vector (spec theorem ReparamInvariant ties it to the basis on the original one)
+    model_replay("C18", tier, ev, rep, "MC_KnotVector.tla", f"MC_KvAffine_{tier}.cfg")
+    # random(): every draw is captured and handed to TLC as the witness of the existential
+    val = Validator()
+    rng_seed = core.seed()
+    np.random.seed(rng_seed % (2 ** 32))
+    G = lib.GeneratorKnotVector
+    real_randint = np.random.randint
+    count = 40 if tier == "quick" else 400
+    for i in range(count):
+        p = i % 4
+        n = p + 1 + (i // 4) % 4
+        drawn = []
+
+        def spy(*a, **k):
+            r = real_randint(*a, **k)
+            drawn.append([int(x) for x in np.atleast_1d(r)])
+            return r
+        np.random.randint = spy
+        try:
+            kv = G.random(p, n, Fraction)
+        finally:
+            np.random.randint = real_randint
+        if len(drawn) != 1:
+            raise core.MachineryError("random() no longer draws once through numpy.random.randint")
+        try:
+            U = core.rats(list(kv))
+        except TypeError as e:
+            rep.violation("KvRandom:inexact", {"p": p, "n": n, "error": str(e), "vector": [str(x) for x in kv]})
+            continue
+        val.add({"name": "KvRandom", "p": p, "n": n, "w": [[x, 1] for x in drawn[0]]}, d={"U": U, "P": [], "W": []})
+        kvf = G.random(p, n)  # default float class: limits must be exactly (0.0, 1.0)
+        if tuple(kvf.limits) != (0.0, 1.0) or kvf.degree != p or kvf.npts != n:
+            rep.violation("KvRandom/float:limits_exactly_01", {"p": p, "n": n, "limits": [repr(x) for x in kvf.limits]})
+    judge_events(ev, rep, val)
+    # float normalize(): a rounding claim TLC cannot see but the spec states (limits exactly 0 and 1)
+    rnd = np.random.RandomState(rng_seed % (2 ** 32))
+    bad = 0
+    trials = 2000 if tier == "quick" else 50000
+    for i in range(trials):
+        p = int(rnd.randint(0, 4))
+        k = int(rnd.randint(0, 4))
+        lo = float(rnd.uniform(-10, 10))
+        inner = sorted(lo + float(x) for x in rnd.uniform(0.1, 7, k + 1))
+        vec = [lo] * (p + 1) + inner[:-1] + [inner[-1]] * (p + 1)
+        kv = lib.KnotVector(vec)
+        kv.normalize()
+        if tuple(kv.limits) != (0.0, 1.0) or kv.degree != p or kv.npts != p + 1 + k:
+            bad += 1
+            if bad <= 3:
+                rep.violation("KvNormalize/float:limits_exactly_01",
+                              {"vector": [repr(x) for x in vec], "limits": [repr(x) for x in kv.limits]})
+    ev.extra["float_normalize_trials"] = trials
+    ev.validated += trials
+    return finish(ev, rep)
+
+
+c15 = simple("C15", [("MC_Machine.tla", "MC_Machine_TIER.cfg"), ("MC_Curve.tla", "MC_Curve_misc_quick.cfg")])
+
+
+def c16(tier):
+    """number-representation refinement (Binding C): the same TLC-generated scenarios, replayed with the data
+    given as int / float / numpy.float64; the exact spec state is the oracle (1e-9 relative).  Fraction mode
+    (all other checks) already asserts that no float appears in any result."""
+    ev = Evidence("C16", tier, core.seed())
+    rep = Reporter("C16", ev)
+    scen = [("MC_Curve.tla", "MC_Curve_eval_quick.cfg"), ("MC_Curve.tla", "MC_Curve_basis_quick.cfg"),
+            ("MC_Curve.tla", "MC_Curve_insert_quick.cfg"), ("MC_Curve.tla", "MC_Curve_elevate_quick.cfg"),
+            ("MC_Curve.tla", "MC_Curve_split_quick.cfg"), ("MC_Curve.tla", "MC_Curve_integ_quick.cfg"),
+            ("MC_Curve.tla", "MC_Curve_remove_quick.cfg"), ("MC_Curve.tla", "MC_Curve_decrease_quick.cfg"),
+            ("MC_Curve.tla", "MC_Curve_join_quick.cfg")]
+    if tier == "quick":
+        scen = scen[:6]
+    modes = ["float", "numpy.float64", "int", "fraction"] if tier == "thorough" else ["float", "numpy.float64", "int"]
+    cache = {}
+    for module, cfg in scen:
+        for mode in modes:
+            model_replay_cached("C16", tier, ev, rep, module, cfg, mode, cache)
+    ev.assumptions += ["float modes compare with the exact spec value to 1e-9 relative on the small, well-conditioned universe",
+                       "relationally specified results (tolerance-guarded removal etc.) are judged only in exact mode"]
+    return finish(ev, rep)
+
+
+def model_replay_cached(prop, tier, ev, rep, module, cfg, mode, cache):
+    """like model_replay but one TLC run serves several number modes; Binding B is skipped in inexact modes"""
+    key = (module, cfg)
+    if key not in cache:
+        res = run_tlc(module, cfg)
+        need_ok(res, cfg)
+        if res.violation:
+            raise core.MachineryError(res.violation[:2000])
+        ev.add_tlc(res, cfg)
+        cache[key] = res
+    res = cache[key]
+    lib = core.import_lib()
+    r = Replayer(lib, mode, validator=None)
+
+    def on_fail(t, fails):
+        rep.violation(f"{mode}:" + fail_key(t, fails), {"transition": t, "failures": fails, "mode": mode,
+                                                         "model": module, "cfg": cfg})
+    recs = [t for t in res.records if t["ret"].get("rel") != "sem"]
+    n = replay_all(recs, r, on_fail, sample=lambda t: ev.sample({"mode": mode, **short(t)}))
+    ev.validated += n
+    per = ev.extra.setdefault("replayed_by_mode", {})
+    per[mode] = per.get(mode, 0) + n
+
+
+CHECKS = {"C15": c15, "C16": c16, "C10": c10, "C18": c18, "C01": c01, "C02": c02, "C03": c03, "C04": c04, "C05": c05, "C06": c06, "C07": c07, "C08": c08,
           "C13": c13, "C14": c14, "C09": c09, "C11": c11, "C12": c12, "C17": c17, "C19": c19, "C20": c20}
 
 
